@@ -338,18 +338,22 @@ def baseScope : Scope := [(xmlPrefix, xmlNs)]
 /-- `http://www.w3.org/2000/xmlns/` -/
 def xmlnsNs : Str := ['h', 't', 't', 'p', ':', '/', '/', 'w', 'w', 'w', '.', 'w', '3', '.', 'o', 'r', 'g', '/', '2', '0', '0', '0', '/', 'x', 'm', 'l', 'n', 's', '/']
 
-/-- the declaration an attribute makes, if it is one: `xmlns` / `xmlns:p` -/
+/-- is this URI acceptable for a declaration of prefix `p` (`p = []`: the default
+    namespace)?  A prefix cannot be undeclared in XML 1.0; the `xml` prefix and
+    the two reserved namespace names are fixed. -/
+def declLegal (p u : Str) : Bool :=
+  if p.isEmpty then !(u = xmlNs || u = xmlnsNs)
+  else !(List.elem ':' p || u.isEmpty || p = xmlnsName || (p.head?.map isNameStartBad).getD true
+         || decide ((p = xmlPrefix) ≠ (u = xmlNs)) || u = xmlnsNs)
+
+/-- the declaration an attribute makes, if it is one: `xmlns` / `xmlns:p`
+    (`some none`: it is one, but an illegal one) -/
 def declOf (a : Str × Str) : Option (Option (Str × Str)) :=
-  if a.1 = xmlnsName then
-    (if a.2 = xmlNs || a.2 = xmlnsNs then some none else some (some ([], a.2)))
-  else match stripPrefix (xmlnsName ++ [':']) a.1 with
-    | some p =>
-        -- a prefix cannot be undeclared in XML 1.0; `xml`/`xmlns` are reserved
-        if p.isEmpty || List.elem ':' p || a.2.isEmpty || p = xmlnsName
-            || (p.head?.map isNameStartBad).getD true then some none
-        else if (p = xmlPrefix) ≠ (a.2 = xmlNs) || a.2 = xmlnsNs then some none
-        else some (some (p, a.2))
-    | none => none
+  match a.1.span (· ≠ ':') with
+  | (n, []) => if n = xmlnsName then (if declLegal [] a.2 then some (some ([], a.2)) else some none) else none
+  | (pre, _ :: p) =>
+      if pre = xmlnsName then (if !p.isEmpty && declLegal p a.2 then some (some (p, a.2)) else some none)
+      else none
 
 /-- declarations and ordinary attributes of a start tag; `none` if a declaration is illegal -/
 def splitAttrs : List (Str × Str) → Option (Scope × List (Str × Str))
@@ -396,7 +400,7 @@ def resolveTag (sc : Scope) (n : Str) (attrs : List (Str × Str)) : Option (QNam
   | none => none
   | some (ds, as) =>
     if !nodupKeys ds then none else
-    let sc' := ds ++ sc
+    let sc' := ds.reverse ++ sc
     match resolveElem sc' n, resolveAttrs sc' as with
     | some q, some ras => if nodupKeys ras then some (q, ras, sc') else none
     | _, _ => none
